@@ -15,6 +15,8 @@ import MinizProof.Lemmas.Finite
 import MinizProof.Lemmas.CoreSound
 import MinizProof.Lemmas.CoreConverse
 import MinizProof.Lemmas.SpecFuel
+import MinizProof.Lemmas.CoreFull
+import MinizProof.Lemmas.CoreExt
 import MinizProof.Props.C07
 set_option maxRecDepth 1000000
 open Fin'
@@ -238,6 +240,38 @@ theorem invalid_zlib_stream_is_never_done (r : Regs) (inp out : Array UInt8) (ou
   intro hdone
   obtain ⟨zr, hacc, _⟩ := done_implies_valid_zlib r inp out outPos budget flags hstart hshape hflat hz hstop hpos hdone
   exact hinvalid zr hacc
+
+/-- THE PREFIX CLAUSE FOR EVERY WINDOW: whatever part `a` of a stream `a ++ b` that the reference
+    decoder accepts has been supplied (none, some, all of it, or more), and whatever the output window,
+    the call is never reported as a failure: it is `Done`, or asks for more room, or is starved
+    ("needs more input" with the more-input flag, "cannot make progress" without it). From the input
+    extension lemma (a run that does not starve is the run over the longer input) and the
+    window-decides-the-status theorems. -/
+theorem prefix_of_valid_stream_never_fails (r : Regs) (a b out : Array UInt8) (outPos budget flags maxDist : Nat)
+    (res : Inflated)
+    (hstart : r.state = sStart) (hshape : r.rawHeader.size = 4 ∧ r.tableSizes.size = 3 ∧ r.lenCodes.size = 512)
+    (hflat : hasFlag flags fNonWrapping = true) (hz : hasFlag flags fParseZlib = false)
+    (hstop : hasFlag flags fStopOnBlockBoundary = false) (hpos : outPos ≤ out.size)
+    (hspec : inflateSpec (out.extract 0 outPos) maxDist (a ++ b) 0 = .accept res) :
+    (decompress r a out outPos budget flags).status = stDone ∨
+    (decompress r a out outPos budget flags).status = stHasMoreOutput ∨
+    (decompress r a out outPos budget flags).status = stNeedsMoreInput ∨
+    (decompress r a out outPos budget flags).status = stFailedCannotMakeProgress := by
+  have hg : badGeometry flags out.size outPos = false := by
+    unfold badGeometry; simp [hflat]; omega
+  by_cases he : isEoi (callRun r a out outPos budget flags).1 = true
+  · rw [decompress_eq _ _ _ _ _ _ hg]
+    rcases (epilogue_eoi flags outPos (min (outPos + budget) out.size) _ (callRun r a out outPos budget flags).2.1
+      (callRun r a out outPos budget flags).2.2 he).1 with h | h | h
+    · exact .inr (.inr (.inl h))
+    · exact .inr (.inl h)
+    · exact .inr (.inr (.inr h))
+  · have hne : (callRun r a out outPos budget flags).1 ≠ endOfInput flags := by
+      intro h; rw [h, eoi_isEoi] at he; exact he rfl
+    rw [← decompress_ext_same r a b out outPos budget flags hne]
+    by_cases hfit : outPos + res.out.size ≤ min (outPos + budget) out.size
+    · exact .inl (refine_raw_flat r (a ++ b) out outPos budget flags maxDist res hstart hshape hflat hz hstop hpos hspec hfit).1
+    · exact .inr (.inl (full_raw_flat r (a ++ b) out outPos budget flags maxDist res hstart hshape hflat hz hstop hpos hspec (by omega)))
 
 /-- UNDER ANY CALL SCHEDULE (with C07): a fresh decoder fed a raw stream in any chunks with any
     non-shrinking output grants (flat buffer), whose calls before the last were suspended and whose
